@@ -84,10 +84,12 @@ def _value_fields(ctx, rep, eng, name):
         ip.cur_mod.pop()
         ip.cur_func.pop()
         ip.cur_fnode.pop()
+    if all(isinstance(ref, Raised) for s, ref in outs):
+        rep.undecided("value-fields", c, tm.where(cls), "constructor raises on abstract arguments")
+        return
     for s, ref in outs:
         if isinstance(ref, Raised):
-            rep.undecided("value-fields", c, tm.where(cls), "constructor raises on abstract arguments")
-            continue
+            continue      # argument validation: only the constructing paths matter here
         obj = s.heap[ref.oid]
         al = obj.attrs.get("_attrs")
         if not isinstance(al, TupleV) or not all(isinstance(x, StrV) and x.is_const() for x in al.items):
@@ -169,8 +171,15 @@ def _time_print_parse(ctx, rep):
                 fld = arg.attr
             if isinstance(a.orelse, ast.Constant):
                 marker = a.orelse.value
-            # the guard tests the same field for None
-            if not (fld and "self.{} is not None".format(fld) == norm(a.test)):
+            # the guard tests the same field for None; a truthiness test makes falsy
+            # values (0, '') print as the absent marker
+            if fld and norm(a.test) == "self.{}".format(fld):
+                falsy = {"hour": 0, "minute": 0, "DOW": 0}.get(fld)
+                if falsy is not None:
+                    rep.violated("print-parse", "{}::field {} printed when present".format(c, fld), tm.where(st),
+                                 "field {} is tested by truthiness: the value {} prints as the absent "
+                                 "marker and does not parse back".format(fld, falsy))
+            elif not (fld and "self.{} is not None".format(fld) == norm(a.test)):
                 fld = None
         printed.append((fld, spec, marker))
     if any(f is None for f, _, _ in printed):
